@@ -389,10 +389,8 @@ func NewRateLimiter(config RateLimiterConfig) *RateLimiter {
 
 // AllowRequest checks if a request should be allowed
 func (rl *RateLimiter) AllowRequest(ip string, connID string) bool {
-	// Check global limit first
-	if !rl.globalLimiter.Allow() {
-		return false
-	}
+	// The client's own limits come first: a request they refuse must not use
+	// up capacity shared with every other client.
 
 	// Check per-IP limit
 	if !rl.perIPLimiter.Allow(ip) {
@@ -414,6 +412,11 @@ func (rl *RateLimiter) AllowRequest(ip string, connID string) bool {
 				return false
 			}
 		}
+	}
+
+	// Check global limit last, only for requests within the client's own limits
+	if !rl.globalLimiter.Allow() {
+		return false
 	}
 
 	return true
